@@ -20,6 +20,9 @@ func checkC06(c *Ctx, r *Report) {
 	c06R2(c, r)
 	c06R3(c, r)
 	c06R4(c, r)
+	c06TTLUnits(c, r)
+	c06GenerateRange(c, r)
+	c06IncludeFile(c, r)
 }
 
 // mustPassExit is mustPass restricted to the exits accepted by isExit.
